@@ -144,19 +144,19 @@ class FakeInterp1d:
             if self.bounds_error:
                 raise ValueError('A value in x_new is below the interpolation range.')
             if isinstance(self.fill_value, str):
-                return self._lin(0, q) if self.kind == 'linear' else FakeInterp1d.h.fun(f'interp_{self.kind}_{self.uid}', q)
+                return self._lin(0, q) if self.kind == 'linear' else FakeInterp1d.h.fun(f'interp_{self.kind}', q, *self.x, *self.y)
             return self._fill(True)
         if q > x[n - 1]:
             if self.bounds_error:
                 raise ValueError('A value in x_new is above the interpolation range.')
             if isinstance(self.fill_value, str):
-                return self._lin(n - 2, q) if self.kind == 'linear' else FakeInterp1d.h.fun(f'interp_{self.kind}_{self.uid}', q)
+                return self._lin(n - 2, q) if self.kind == 'linear' else FakeInterp1d.h.fun(f'interp_{self.kind}', q, *self.x, *self.y)
             return self._fill(False)
         if self.kind != 'linear':
             for i in range(n):
                 if q == x[i]:
                     return y[i]
-            return FakeInterp1d.h.fun(f'interp_{self.kind}_{self.uid}', q)
+            return FakeInterp1d.h.fun(f'interp_{self.kind}', q, *self.x, *self.y)
         for i in range(n - 1):
             if q <= x[i + 1]:
                 return self._lin(i, q)
